@@ -203,6 +203,54 @@ def aligned_run_cases(run, rng, n):
         run.sample({"aligned_run_case": {k: v for k, v in c.items() if k != "vals"}})
 
 
+def large_first_last_cases(run, rng, n):
+    """first / last / nanfirst / nanlast on LARGE unsorted inputs (300-900 elements, well beyond any small-array code path), every engine
+    given explicitly, in memory and chunked: the positionally first / last (valid) member of every group, computed by a plain loop"""
+    import warnings
+
+    import dask
+    import dask.array as da
+    import numpy as np
+
+    import flox
+
+    for _ in range(n):
+        m = rng.randint(300, 900)
+        ng = rng.randint(2, 7)
+        labels = np.array([rng.randrange(ng) for _ in range(m)])
+        isfloat = rng.random() < 0.6
+        vals = np.arange(m, dtype=float) * 3 + 1 if isfloat else np.arange(m, dtype="int64") * 3 + 1      # all different: the member is identifiable
+        if isfloat:
+            vals[np.array([rng.random() < 0.3 for _ in range(m)])] = np.nan
+        func = rng.choice(["nanfirst", "nanlast"] if isfloat else ["first", "last", "nanfirst", "nanlast"])
+        engine = rng.choice(["flox", "flox", "numpy", "numbagg"])
+        chunks = rng.choice([None, None, tuple(G.random_composition(rng, m, 4))])
+        if chunks is not None and func in ("first", "last"):
+            func = "nan" + func
+        want = []
+        for g in range(ng):
+            mem = vals[labels == g]
+            ok = mem[~np.isnan(mem)] if isfloat else mem
+            want.append((ok[0] if func.endswith("first") else ok[-1]) if len(ok) else np.nan)
+        try:
+            with warnings.catch_warnings(), dask.config.set(scheduler="sync"):
+                warnings.simplefilter("ignore")
+                arr = vals if chunks is None else da.from_array(vals, chunks=(chunks,))
+                r, _ = flox.groupby_reduce(arr, labels, func=func, engine=engine, expected_groups=np.arange(ng), fill_value=np.nan if isfloat else -1,
+                                           method=None if chunks is None else rng.choice([None, "map-reduce", "cohorts"]))
+                got = np.asarray(r.compute() if hasattr(r, "compute") else r, dtype=float)
+        except (ValueError, NotImplementedError):
+            run.extra["refused_cases"] = run.extra.get("refused_cases", 0) + 1
+            continue
+        run.count(f"largefl|{m}|{ng}|{func}|{engine}|{chunks}|{int(vals[~np.isnan(vals)].sum()) if isfloat else int(vals.sum())}", True)
+        w = np.array([(-1 if (not isfloat and x != x) else x) for x in want], dtype=float)
+        if not np.allclose(got, w, equal_nan=True):
+            run.violation({"property": "C06", "kind": "first/last of a large unsorted input is not the positionally first/last (valid) member of the group",
+                           "func": func, "engine": engine, "n": m, "ngroups": ng, "chunks": None if chunks is None else list(chunks), "dtype": str(vals.dtype),
+                           "labels": labels.tolist(), "nan_positions": np.nonzero(np.isnan(vals))[0].tolist() if isfloat else [],
+                           "values": "arange(n)*3+1 (NaN at nan_positions)", "got": got.tolist(), "want": w.tolist()}, tag="largefl")
+
+
 def run(run: C.Run):
     rng = random.Random(run.seed)
     proofs_ok = P.front(run, translators=("registry",))
@@ -216,6 +264,7 @@ def run(run: C.Run):
                       nofail=True, tag="obligation")
     unknown_label_cases(run, rng, 1500 if run.tier == "thorough" else 200)
     aligned_run_cases(run, rng, 1500 if run.tier == "thorough" else 200)
+    large_first_last_cases(run, rng, 600 if run.tier == "thorough" else 80)
     from tools.lib import fuzz as Z
     Z.run_stream(run, rng, 1500 if run.tier == "thorough" else 160, "C06",
                  funcs=["argmax", "argmin", "nanargmax", "nanargmin", "first", "last", "nanfirst", "nanlast"])
